@@ -691,14 +691,14 @@ where
 
         let props = self.props.unwrap_or_else(Properties::new);
         let props_size = props.size();
-        let property_length = VariableByteInteger::from_u32(props_size as u32).unwrap();
+        let property_length = VariableByteInteger::from_len(props_size)?;
 
         let packet_id_size = mem::size_of::<<PacketIdType as IsPacketId>::Buffer>();
         let prop_len_size = property_length.size();
         let reason_codes_size = reason_codes_buf.len();
 
         let remaining = packet_id_size + prop_len_size + props_size + reason_codes_size;
-        let remaining_length = VariableByteInteger::from_u32(remaining as u32).unwrap();
+        let remaining_length = VariableByteInteger::from_len(remaining)?;
 
         Ok(GenericSuback {
             fixed_header: [FixedHeader::Suback as u8],
